@@ -141,6 +141,15 @@ CLAIMED['C20'] = dict(
          'reported through its API witness. ' + NOTE_COMMON,
     design='§5/C20')
 
+CLAIMED['C03'] = dict(
+    technique='symbolic execution (symx + z3) of the real digit kernel on numerals with symbolic digits and an exact Decimal proxy; CrossHair for the output formatter',
+    text=SX + 'BaseNumberParser._get_digital_value runs with each culture\'s real separator configuration on every numeral shape (plain, grouped, decimal, grouped+decimal, '
+         'signed; <= 15 digits) with all digits symbolic: the value must equal the number written, for every digit assignment at once. CultureInfo.format is confirmed by '
+         'CrossHair over all decimal strings [-]d{1,4}[.d{0,3}] per culture; the percentage parser appends "%" exactly once and keeps the span.',
+    note='Decimal and its context are replaced by an exact proxy (valid up to 15 digits; validated against real Decimal on random numerals every run). The regex layer, CJK '
+         'cultures, multipliers/fractions/powers, sign words and numerals beyond 15 digits are outside. ' + NOTE_COMMON,
+    design='§5/C03')
+
 NOT_APPLICABLE = {
     'C18': 'ground equality of ~50 concrete generated files against concrete YAML: no quantified variable for a solver to range over; '
            'deciding it is executing the generator (whose dependency ruamel.yaml is absent from every usable interpreter)',
